@@ -34,6 +34,7 @@ LEarned(st) == [a \in Addr |-> IF a \in DOMAIN st.earned THEN st.earned[a] ELSE 
 
 TraceInit ==
     /\ l = 1 /\ ph = "act"
+    /\ par = [period |-> 1, create |-> 2]
     /\ h = 0 /\ now = 0 /\ fee = 0 /\ current = 0 /\ tr = NoTr /\ gcount = 0
     /\ grp = [g \in Groups |-> NoGrp] /\ pendG = <<>> /\ lastExpG = 0 /\ bm = {}
     /\ canSign = [g \in Groups |-> TRUE] /\ sigc = 0 /\ sig = [id \in Sigs |-> NoSig]
@@ -41,6 +42,7 @@ TraceInit ==
     /\ bal = [p \in Payer |-> 0] /\ escrow = 0 /\ earned = [a \in Addr |-> 0] /\ owed = 0 /\ out = "init"
 
 ResetVars(st) ==
+    /\ par' = [period |-> st.par.period, create |-> st.par.create]
     /\ h' = st.h /\ now' = st.now /\ fee' = st.fee /\ current' = st.current /\ tr' = LTr(st)
     /\ gcount' = st.gcount /\ grp' = [g \in Groups |-> LGrp(st, g)]
     /\ pendG' = st.pendG /\ lastExpG' = st.lastExpG /\ bm' = ToSet(st.bm)
@@ -57,7 +59,7 @@ TForce   == Force(Line.a.auth, Line.a.g, Line.a.off) /\ out' = Outcome
 TDkgDone == DkgDone(Line.a.g, Line.a.good)
 TInstall == InstallGroup(ToSet(Line.a.ms), Line.a.thr)
 TRequest == /\ \E incOK \in BOOLEAN : \E S \in ComOrNone(current), SI \in ComOrNone(Incoming) :
-                   Request(Line.a.p, Line.a.limit, S, incOK, SI)
+                   Request(Line.a.p, Line.a.limit, Line.a.lx, S, incOK, SI)
             /\ out' = Outcome
 TSignAll == SignAll(Line.a.id)
 TEndBlock == Line.o.ok /\ \E HS \in ComOrNone(current) : EndBlock(Line.a.dt, HS)
@@ -101,7 +103,7 @@ Sync ==
         /\ Bind("escrow", escrow, escrow', st.escrow)
         /\ Bind("earned", earned, earned', LEarned(st))
         /\ owed' = IF "escrow" \in Checked THEN owed ELSE st.escrow
-    /\ UNCHANGED out
+    /\ UNCHANGED <<out, par>>
 
 TraceNext == Act \/ Sync
 TraceSpec == TraceInit /\ [][TraceNext]_tvars
